@@ -218,6 +218,12 @@ class Body:
     def __repr__(self):
         return '<Body %s>' % self.path
 
+    def reset_cfg(self):
+        """Forget everything derived from the block list (after a terminator was rewritten)."""
+        self._succ = self._pred = self._ret_locals = self._dom = self._reach = self._defs = None
+        for k in [k for k in self.__dict__ if k.startswith('_') and k not in ('_succ', '_pred', '_ret_locals', '_dom', '_reach', '_defs')]:
+            del self.__dict__[k]
+
     # ---- CFG (normal edges only; cleanup blocks are excluded)
     @property
     def succ(self):
@@ -595,6 +601,11 @@ class Facts:
                 self.dups[d['path']].append(b)
             else:
                 self.bodies[d['path']] = b
+        for b in self.bodies.values():
+            if any(blk.get('inl') for blk in b.blocks):
+                n_ = fold_constant_switches(b) + fold_correlated_switches(b)
+                if n_ and isinstance(self.inline_report, dict):
+                    self.inline_report['folded_switches'] = self.inline_report.get('folded_switches', 0) + n_
         self.adts = {a['path']: a for a in self.raw['adts']}
         self.consts = {c['path']: c for c in self.raw['consts']}
         self.impls = self.raw['impls']
@@ -1038,6 +1049,195 @@ def norm_place(b, p):
         else:
             break
     return p
+
+
+def _place_canon(b, p):
+    q = norm_place(b, p)
+    return q['l'], tuple(proj_str(e) if not isinstance(e, str) else e for e in place_proj(q))
+
+
+def _overlap(a, c):
+    n = min(len(a), len(c))
+    return a[:n] == c[:n]
+
+
+def _mut_ref_may_overlap(b, l, root, proj, depth=0):
+    """Can the mutable reference held in local `l` reach the place root.proj? Resolved through reborrows and copies; a
+    reference produced by a call is as dangerous as the references that call received; anything else is unknown (True)."""
+    if depth > 3:
+        return True
+    try:
+        r_, p_ = _place_canon(b, {'l': l, 'p': ['*']})
+    except Exception:
+        return True
+    if r_ == root:
+        return _overlap(p_, proj)
+    if 1 <= r_ <= b.argc:
+        return False      # another parameter: exclusive references handed in separately do not alias
+    ds = [x for x in b.whole_defs(r_) if x[0] in b.live]
+    if len(ds) == 1 and ds[0][2] == 'call':
+        for a in ds[0][3].get('args') or []:
+            q = op_place(a)
+            if q is None:
+                continue
+            ty = b.local_ty(q['l']) or ''
+            if not ('&' in ty or '*mut' in ty or '*const' in ty):
+                continue
+            if place_proj(q) or _mut_ref_may_overlap(b, q['l'], root, proj, depth + 1):
+                return True
+        return False
+    if len(ds) == 1 and ds[0][2] == 'assign' and ds[0][3]['rv']['k'] in ('ref', 'rawptr'):
+        # `&mut local` of a value that lives in this frame (not behind root)
+        q = ds[0][3]['rv']['place']
+        return q['l'] == root and _overlap(tuple(proj_str(e) if not isinstance(e, str) else e for e in place_proj(q)), proj)
+    return True
+
+
+def const_of_local(b, op, depth=6):
+    """Constant an operand certainly holds: a literal, or a local whose only definition is a plain copy of such a value (the
+    parameter of a spliced helper called with a literal)."""
+    v = const_val(op)
+    if v is not None:
+        return v
+    p = op_place(op)
+    while p is not None and not place_proj(p) and depth > 0:
+        depth -= 1
+        if 1 <= p['l'] <= b.argc:
+            return None
+        ds = [d for d in b.whole_defs(p['l']) if d[0] in b.live]
+        if len(ds) != 1 or ds[0][2] != 'assign' or ds[0][3]['rv']['k'] != 'use' or p['l'] in mut_borrowed(b):
+            return None
+        o = ds[0][3]['rv']['op']
+        v = const_val(o)
+        if v is not None:
+            return v
+        p = op_place(o)
+    return None
+
+
+def fold_constant_switches(b):
+    """`helper(true)` spliced into its caller: the `if flag` inside tests a constant - the switch becomes a jump."""
+    n = 0
+    for bi in sorted(b.live):
+        blk = b.blocks[bi]
+        t = blk['term']
+        if t['k'] != 'switch' or not blk.get('inl'):
+            continue
+        v = const_of_local(b, t['discr'])
+        if v is None or isinstance(v, bool) and False:
+            continue
+        if not isinstance(v, int):
+            continue
+        tgt = dict((x, y) for x, y in t['targets']).get(int(v), t['otherwise'])
+        blk['term'] = {'k': 'goto', 'target': tgt, 'folded': 'constant %s' % v, 'file': t.get('file'), 'ln': t.get('ln')}
+        n += 1
+    if n:
+        b.reset_cfg()
+    return n
+
+
+def fold_correlated_switches(b):
+    """A helper spliced into a match arm may test again what the arm was selected by
+    (`let State::Stop(ref mut f) = self.st else { unreachable!() }` inside `State::Stop(_) => self.poll_stop()`): a switch
+    over `discriminant(P)` in spliced code that can only be reached through one edge of an earlier switch over the same place,
+    with nothing in between that can write P (no assignment to an overlapping place, no call that receives a `&mut` to an
+    overlapping place or a `&mut` that cannot be resolved, no suspension point), is replaced by a jump to the target of that
+    edge. Returns the number of switches folded."""
+    sw = []
+    for bi in sorted(b.live):
+        t = b.blocks[bi]['term']
+        if t['k'] != 'switch':
+            continue
+        d = op_place(t['discr'])
+        if d is None or place_proj(d):
+            continue
+        ds = [x for x in b.whole_defs(d['l']) if x[0] in b.live]
+        if len(ds) != 1 or ds[0][2] != 'assign' or ds[0][3]['rv']['k'] != 'discr' or ds[0][0] != bi:
+            continue
+        try:
+            sw.append((bi, ds[0][1], _place_canon(b, ds[0][3]['rv']['place'])))
+        except Exception:
+            continue
+    folded = 0
+    for s2, j2, c2 in sw:
+        if not b.blocks[s2].get('inl'):
+            continue
+        done = False
+        for s1, j1, c1 in sw:
+            if done or s1 == s2 or c1 != c2 or not b.dominates(s1, s2):
+                continue
+            t1 = b.blocks[s1]['term']
+            edges = [(v, tb) for v, tb in t1['targets']]
+            for v, tb in edges:
+                if [x for x in edges if x[1] == tb and x[0] != v] or tb == t1['otherwise']:
+                    continue
+                if not edge_dominates(b, s1, tb, s2):
+                    continue
+                # blocks between that edge and the second test
+                back = set()
+                work = [s2]
+                while work:
+                    x = work.pop()
+                    for pr in b.pred[x]:
+                        if pr not in back and pr != s1 and pr in b.live:
+                            back.add(pr)
+                            work.append(pr)
+                region = (b.reachable(tb, avoid=[s1, s2]) & back) | {s2}
+                root, proj = c2
+                safe = True
+                for rb in region:
+                    blk = b.blocks[rb]
+                    for k, st in enumerate(blk['stmts']):
+                        if rb == s2 and k >= j2:
+                            break
+                        if st['k'] in ('assign', 'setdiscr', 'set_discriminant'):
+                            lhs = st.get('lhs') or st.get('place')
+                            if lhs is None:
+                                safe = False
+                                break
+                            if place_proj(lhs):
+                                try:
+                                    r_, p_ = _place_canon(b, lhs)
+                                except Exception:
+                                    safe = False
+                                    break
+                                if r_ == root and _overlap(p_, proj):
+                                    safe = False
+                                    break
+                            elif lhs['l'] == root:
+                                safe = False
+                                break
+                    if not safe:
+                        break
+                    if rb == s2:
+                        continue
+                    t = blk['term']
+                    if t['k'] in ('yield',):
+                        safe = False
+                        break
+                    if t['k'] == 'call':
+                        for a in t.get('args') or []:
+                            q = op_place(a)
+                            if q is None:
+                                continue
+                            ty = b.local_ty(q['l']) or ''
+                            if not (ty.startswith('&mut') or ty.startswith('*mut') or ty.startswith('std::pin::Pin<&mut')):
+                                continue
+                            if place_proj(q) or _mut_ref_may_overlap(b, q['l'], root, proj):
+                                safe = False
+                                break
+                        if not safe:
+                            break
+                if not safe:
+                    continue
+                t2 = b.blocks[s2]['term']
+                tgt = dict((v_, b_) for v_, b_ in t2['targets']).get(v, t2['otherwise'])
+                b.blocks[s2]['term'] = {'k': 'goto', 'target': tgt, 'folded': 'discriminant known from block %d' % s1, 'file': t2.get('file'), 'ln': t2.get('ln')}
+                b.reset_cfg()
+                folded += 1
+                done = True
+                break
+    return folded
 
 
 # ----------------------------------------------------------------------------- boolean branches
